@@ -195,7 +195,8 @@ func NewSchema(schema *openapi3.Schema, components Sourcer[Schema], opts SchemaO
 				})
 				mapMapping[ref.Name] = &out.Discriminator.Mapping[len(out.Discriminator.Mapping)-1]
 			}
-			for k, v := range schema.Discriminator.Mapping {
+			for _, k := range sortedKeys(schema.Discriminator.Mapping) {
+				v := schema.Discriminator.Mapping[k]
 				if m, ok := refMapping[v]; ok {
 					mapMapping[m].Values = append(mapMapping[m].Values, k)
 				} else {
